@@ -51,6 +51,35 @@ PROPS['C10'] = dict(
     trusted_base=['rustc', 'Verus 0.2026.09.13 / Z3', 'extractor lib/rustcut.py + lib/verusgen.py (rewrites logged in rewrites_applied)'],
 )
 
+DYN_FUNCS = ['new', 'add_event', 'tick_record_state', 'tick_replay_state', 'begin_record_macro', 'record_press',
+             'record_release', 'stop_macro', 'key_event', 'delay', 'as_u16', 'as_u16_linux', 'from',
+             'lemma_release_appended', 'lemma_all_released', 'replay_step_emits_head']
+
+PROPS['C19'] = dict(
+    level='proof',
+    level_text=('Unbounded deductive proof (Verus/Z3) of contracts on the recorder / replayer functions of dynamic_macro.rs, whose text is '
+                'cut from /repo on every run: record = append to the typed sequence with the one-event lag; stop/begin = typed minus the stop '
+                'key minus the truncated tail plus one release per key still down; replay = pop exactly the head per due tick with the '
+                'configured pacing. Partial: recursion guard (play_macro) and "same output as typing again" are not decided.'),
+    level_note=('Trusted: rustc, Verus+Z3, extractor. Assumed: contract of add_release_for_all_unreleased_presses (external_body, iterates a hash set); '
+                'FxHashSet/VecDeque follow the vstd contracts of the std containers; play_macro not covered.'),
+    technique='contract-based deductive verification (Verus requires/ensures on extracted real code, ghost view typed(state))',
+    design_ref='DESIGN.md section 4, C19',
+    explanation=('Verus contracts on src/kanata/dynamic_macro.rs: add_event, record_press, record_release, tick_record_state, begin_record_macro, '
+                 'stop_macro, tick_replay_state, ReplayEvent accessors, plus the OsCode->u16 conversion chain they call. No preconditions on '
+                 'stop_macro/begin_record_macro: they must be panic-free for every recorder state.'),
+    verus=[dict(unit='dynmacro', only=DYN_FUNCS)],
+    kani=[],
+    assumptions=[
+        'add_release_for_all_unreleased_presses appends exactly one zero-delay release per key still down (assumed, external_body)',
+        'play_macro (recursion guard, queue prepending) is not under contract: "never replays itself recursively" is NOT decided',
+        '"produces the same output as typing them again" is a whole-state-machine statement and is NOT decided',
+        'only the target_os = "linux" arms of OsCode::as_u16 are verified',
+    ],
+    trusted_base=['rustc', 'Verus 0.2026.09.13 / Z3', 'vstd contracts for Vec, VecDeque, HashSet, Option',
+                  'extractor lib/rustcut.py + lib/verusgen.py (rewrites logged in rewrites_applied)'],
+)
+
 
 def find_harness(name):
     for p in PROPS.values():
